@@ -2,11 +2,12 @@
     Only ExtrOcamlBasic (bool/option/list/prod/unit/sumbool to OCaml natives);
     nat, positive, N and Z stay Coq datatypes.  No Extract Constant. *)
 From Coq Require Import Extraction ExtrOcamlBasic ZArith List.
-From RV Require Import Model.Acl Model.Bytes Model.Md4 Model.Checksum Model.Delta Model.Sender Model.Mux Model.Flist.
+From RV Require Import Model.Acl Model.Bytes Model.Md4 Model.Checksum Model.Delta Model.Sender Model.Mux Model.Flist Model.Generator.
 Extraction Language OCaml.
 Extraction "model.ml"
   Z.add Z.mul Z.sub Z.opp Z.compare Z.of_nat Z.to_nat Z.eqb Z.ltb Z.div Z.modulo
   check_acl acl_stage
   md4 checksum1 tag sum_sizes_sqroot send_one receive_data
   read_full bufio_read mux_read read_msg
-  recv_file_list send_file_list path_clean sort_entries find_in_list.
+  recv_file_list send_file_list path_clean sort_entries find_in_list
+  gen_decision gen_sums enc_sums file_transfer.
